@@ -168,7 +168,7 @@ func TestTargetBitrateBounded(t *testing.T) {
 		}
 		rounds := rapid.IntRange(1, 6).Draw(t, "rounds")
 		for r := 0; r < rounds; r++ {
-			groups := rapid.IntRange(1, 6).Draw(t, "groups")
+			groups := rapid.OneOf(rapid.IntRange(1, 6), rapid.IntRange(6, 16)).Draw(t, "groups")
 			type sentRec struct{ twcc uint16 }
 			var sent []sentRec
 			for g := 0; g < groups; g++ {
@@ -194,7 +194,7 @@ func TestTargetBitrateBounded(t *testing.T) {
 				}
 			}
 			// arrival pattern
-			pattern := rapid.SampledFrom([]string{"paced", "zero-interarrival", "equal", "decreasing", "huge-gaps", "all-lost", "half-lost", "random"}).Draw(t, "pattern")
+			pattern := rapid.SampledFrom([]string{"paced", "paced", "compressed", "compressed", "stretched", "zero-interarrival", "equal", "decreasing", "huge-gaps", "all-lost", "half-lost", "random"}).Draw(t, "pattern")
 			classes[pattern] = true
 			if pattern == "zero-interarrival" || pattern == "all-lost" {
 				interesting = true
@@ -205,6 +205,10 @@ func TestTargetBitrateBounded(t *testing.T) {
 				switch pattern {
 				case "paced":
 					st.Delta250 = 24
+				case "compressed": // arrivals closer together than departures: the delay gradient is negative (underuse)
+					st.Delta250 = 8
+				case "stretched": // arrivals further apart than departures (overuse)
+					st.Delta250 = 60
 				case "zero-interarrival", "equal":
 					st.Delta250 = 0
 				case "decreasing":
